@@ -21,6 +21,7 @@ import bounded.ode  # noqa: E402
 import bounded.fom  # noqa: E402
 import bounded.tsp_instance  # noqa: E402
 import contracts.fom  # noqa: E402
+import contracts.validate  # noqa: E402
 import contracts.ode  # noqa: E402
 import contracts.tsp_instance  # noqa: E402
 import contracts.bp_instance  # noqa: E402
@@ -139,13 +140,25 @@ PLANS["C16"] = Plan(
 )
 
 PLANS["C04"] = Plan(
-    "C04", "exploration",
+    "C04", "proof",
+    functions=["moptipyapps.binpacking2d.packing_space:PackingSpace.validate#sound",
+               "moptipyapps.binpacking2d.packing_space:PackingSpace.validate#complete"],
+    lemmas=["cnt_le", "cnt_full", "cnt_tail", "cnt_add", "cnt_prefix", "scnt_step", "scnt_rows", "scnt_zero",
+            "rowcount_nonneg", "pigeon"],
+    consts={"IDX_ID": 0, "IDX_BIN": 1, "IDX_LEFT_X": 2, "IDX_BOTTOM_Y": 3, "IDX_RIGHT_X": 4, "IDX_TOP_Y": 5,
+            "IDX_WIDTH": 0, "IDX_HEIGHT": 1, "IDX_REPETITION": 2},
     bounded=[bounded.packing_validate.harness],
-    explanation="bounded stand-in only (PackingSpace.validate uses set/Counter/dict iteration and numpy text parsing, which the "
-                "VC generator does not model yet): validate raises iff an independent oracle of the feasibility definition "
-                "rejects, on decoder outputs and on 20 corruption classes generated from the clauses of that definition; "
-                "from_str round trip and rejection of corrupt text",
-    assumptions=["not a proof: finite sample of instances and corruptions (counts in coverage)"],
+    explanation="two contracts on the real method PackingSpace.validate: #sound - on normal return the packing is Feasible "
+                "(every row valid id/bin/box/size in one of the two orientations, no overlap within a bin, every id with its "
+                "prescribed multiplicity (pigeonhole lemma over the Counter model), bins contiguous from 1 (cardinality lemmas "
+                "over the set model), stored bin count correct); #complete - for a Feasible packing every `raise` is "
+                "unreachable.  Python set / Counter / dict-iteration statements are replaced by summaries on a characteristic-"
+                "array model (listed as assumptions).  from_str (numpy text parsing) and the type/shape/identity checks: "
+                "bounded harness with clause-derived corruption classes",
+    trusted=["summaries of set(), Counter(), max/min/len of a set and the items.items() loop on the array model",
+             "assumed contract of pycommons.check_int_range"],
+    assumptions=["Instance invariants (repetitions >= 1 summing up to n_items) are taken from Instance.__new__ (block "
+                 "contract #dtype proves the sum; E-level assumption here)"],
 )
 
 PLANS["C09"] = Plan(
@@ -353,12 +366,12 @@ META = {
             "note": "level 'other': proof for the kernel, bounded for text parsing (string operations) and for the bound "
                     "computation (numpy library calls + rearrangement inequality)",
             "technique": "contract-based deductive verification (nested-loop invariants over recursive sums) + bounded monitor"},
-    "C04": {"text": "bounded: validate vs. an independent feasibility oracle on generated feasible packings and on corruptions "
-                    "derived clause by clause from the feasibility definition (both directions), text round trip; labelled "
-                    "bounded, nothing counted as proved",
-            "note": "exploration level: the contract 'returns normally iff Feasible' is monitored at run time on the real method; "
-                    "a deductive treatment needs set/Counter models (DESIGN.md C04) and is not built yet",
-            "technique": "run-time contract monitor (bounded stand-in) with clause-derived corruption classes"},
+    "C04": {"text": "validate proved sound (normal return implies Feasible) and complete (Feasible implies no raise) on the real "
+                    "method for all instances and matrices, with set/Counter statements summarised on an array model and the "
+                    "multiplicity / contiguity arguments as inductive lemmas; text parsing and type/shape checks: bounded",
+            "note": "assumes the listed summaries of Python set/Counter primitives and check_int_range; from_str is bounded only",
+            "technique": "contract-based deductive verification (two contracts on one method, ghost cardinality and witnesses, "
+                         "inductive lemmas; z3/cvc5) + bounded monitor"},
     "C16": {"text": "all polynomial, partially-linear, peak and ANN controller kernels (generated architectures as programs) and "
                     "the three system-equation kernels proved equal to their documented formulas over the reals for every "
                     "state/parameter vector; inputs never written; min_ann: bounded stand-in",
